@@ -56,11 +56,32 @@ pub fn generate(out: &mut Out, seed: u64, thorough: bool) {
             };
             // real resize for small sizes: must never fail with a cropping error
             let resize = if sw <= 64 && sh <= 64 && dw <= 64 && dh <= 64 && sw > 0 && sh > 0 {
-                let src = Image::new(sw, sh, PixelType::U8);
-                let mut dst = Image::new(dw, dh, PixelType::U8);
-                let opts = ResizeOptions::new().resize_alg(ResizeAlg::Nearest).fit_into_destination(Some((cx, cy)));
+                // coordinate-tagged source: pixel (x, y) = [x, y]; the option must act exactly like the explicit crop box
+                let mut sbuf = Vec::with_capacity((sw * sh * 2) as usize);
+                for y in 0..sh {
+                    for x in 0..sw {
+                        sbuf.push(x as u8);
+                        sbuf.push(y as u8);
+                    }
+                }
+                let src = Image::from_vec_u8(sw, sh, sbuf, PixelType::U8x2).unwrap();
+                let mut dst = Image::new(dw, dh, PixelType::U8x2);
+                let alg = if qi % 3 == 0 { ResizeAlg::Convolution(fir::FilterType::Bilinear) } else { ResizeAlg::Nearest };
+                let opts = ResizeOptions::new().resize_alg(alg).use_alpha(false).fit_into_destination(Some((cx, cy)));
                 match catch(|| Resizer::new().resize(&src, &mut dst, &opts)) {
-                    Ok(Ok(())) => "ok".to_string(),
+                    Ok(Ok(())) => match &r {
+                        Ok(b) => {
+                            let mut dst2 = Image::new(dw, dh, PixelType::U8x2);
+                            let opts2 = ResizeOptions::new().resize_alg(alg).use_alpha(false).crop(b.left, b.top, b.width, b.height);
+                            match catch(|| Resizer::new().resize(&src, &mut dst2, &opts2)) {
+                                Ok(Ok(())) if dst2.buffer() == dst.buffer() => "ok".to_string(),
+                                Ok(Ok(())) => "differs-from-the-explicit-crop-box".to_string(),
+                                Ok(Err(e)) => format!("explicit-crop-err:{:?}", e).replace(' ', ""),
+                                Err(p) => format!("panic:{}", p.replace(' ', "_")),
+                            }
+                        }
+                        Err(_) => "ok".to_string(),
+                    },
                     Ok(Err(e)) => format!("err:{:?}", e).replace(' ', ""),
                     Err(p) => format!("panic:{}", p.replace(' ', "_")),
                 }
